@@ -39,9 +39,10 @@ VARIABLES m,        \* Machine record
           nreq,     \* request uid counter
           seqc,     \* response sequence counter
           herr,     \* the handler raised (a keep response met a request without qubit array): sticky
-          hist      \* history: issued requests, delivered and consumed responses (hidden by the VIEW)
-vars == <<m, createQ, recvQ, pending, net, nreq, seqc, herr, hist>>
-view == <<m, createQ, recvQ, pending, net, herr>>
+          hist,     \* history: issued requests, delivered and consumed responses (hidden by the VIEW)
+          sub       \* which subroutine of the scenario is running (Scn.progs, or the single Scn.prog)
+vars == <<m, createQ, recvQ, pending, net, nreq, seqc, herr, hist, sub>>
+view == <<m, createQ, recvQ, pending, net, herr, sub>>
 
 Key(x) == <<x.remote, x.purpose>>
 QOf(dir) == IF dir = 0 THEN createQ ELSE recvQ
@@ -63,6 +64,7 @@ Init == /\ m = InitMachine
                                               type |-> Scn.remote[i].type, left |-> Scn.remote[i].n]]
         /\ nreq = 0 /\ seqc = 0 /\ herr = FALSE
         /\ hist = [issued |-> << >>, delivered |-> << >>, consumed |-> << >>]
+        /\ sub = 1
 
 (* ---------------- the handler ---------------- *)
 EntInfo(r) == IF r.type = "K" THEN <<0, 0, r.phys, r.dir, r.seq, r.purpose, r.remote, 0, 0, r.bell>>
@@ -118,7 +120,10 @@ RunHandler(p0) ==
   /\ hist' = [hist EXCEPT !.consumed = @ \o st.h]
 
 (* ---------------- actions ---------------- *)
-Prog == Scn.prog
+(* the application's subroutines run one after the other on the same executor: requests, pending responses and   *)
+(* all memory persist from one to the next                                                                      *)
+Progs == IF "progs" \in DOMAIN Scn THEN Scn.progs ELSE <<Scn.prog>>
+Prog == Progs[sub]
 Cur == Prog[m.pc + 1]
 Running == m.status \in {"run", "wait"} /\ m.pc < Len(Prog)
 
@@ -152,9 +157,11 @@ StepOther ==
   /\ m1.status # "wait"              \* a wait instruction is enabled only when the awaited entries are defined
   /\ m' = m1
   /\ UNCHANGED <<createQ, recvQ, pending, net, nreq, seqc, herr, hist>>
-Step == /\ Running /\ ~herr
+Step == /\ Running /\ ~herr /\ UNCHANGED sub
         /\ IF Cur.mn = "create_epr" THEN StepCreate ELSE IF Cur.mn = "recv_epr" THEN StepRecv ELSE StepOther
-Finish == /\ m.status = "run" /\ m.pc >= Len(Prog) /\ m' = [m EXCEPT !.status = "done"]
+Finish == /\ m.status = "run" /\ m.pc >= Len(Prog)
+          /\ IF sub < Len(Progs) THEN m' = StartSub(m) /\ sub' = sub + 1
+                                ELSE m' = [m EXCEPT !.status = "done"] /\ sub' = sub
           /\ UNCHANGED <<createQ, recvQ, pending, net, nreq, seqc, herr, hist>>
 
 Deliver(s) ==
@@ -172,11 +179,11 @@ Deliver(s) ==
         /\ hist' = [hist EXCEPT !.consumed = @ \o st2.h,
                                 !.delivered = Append(@, [dir |-> st.dir, key |-> <<st.remote, st.purpose>>, seq |-> seqc, type |-> st.type])]
         /\ net' = [net EXCEPT ![s].left = @ - 1]
-        /\ seqc' = seqc + 1 /\ UNCHANGED nreq
+        /\ seqc' = seqc + 1 /\ UNCHANGED <<nreq, sub>>
 Retry == /\ pending # << >> /\ ~herr
          /\ RunHandler(pending)
          /\ (m' # m \/ pending' # pending \/ herr')           \* a retry that changes nothing is a stuttering step
-         /\ UNCHANGED <<net, nreq, seqc>>
+         /\ UNCHANGED <<net, nreq, seqc, sub>>
 
 Next == Step \/ Finish \/ (\E s \in DOMAIN net : Deliver(s)) \/ Retry
 Fairness == WF_vars(Step) /\ WF_vars(Finish) /\ WF_vars(Retry) /\ \A s \in 1..8 : WF_vars(Deliver(s))
